@@ -607,6 +607,11 @@ class Dict(dict, base.Symbolic, pg_typing.CustomTyping):
           root_path=utils.KeyPath(name, self.sym_path),
       )
     if field and flags.is_type_check_enabled():
+      # NOTE: applying a value spec modifies a symbolic container in place (it
+      # binds the spec and fills defaults). A container that belongs to another
+      # location is therefore copied before validation, not after it.
+      if isinstance(value, (dict, list)):
+        value = self._copy_if_attached(name, value)
       value = field.apply(
           value,
           allow_partial=allow_partial,
